@@ -280,6 +280,10 @@ walkers = "\n\n".join(out)
 arms = []
 for t in order:
     arms.append(f'        "{t}" => match {rd(t)}::from_compatible_slice(bytes) {{ Ok(r) => {{ walk_{t}(r, bytes); 1 }} Err(_) => 0 }},')
+arms2 = []
+for t in order:
+    arms2.append(f'        "{t}" => {rd(t)}::from_slice(bytes).is_ok() as u8,')
+strict_fn = "\n\n/// strict decoding verdict\npub fn strict(ty: &str, bytes: &[u8]) -> u8 {\n    match ty {\n" + "\n".join(arms2) + "\n        _ => panic!(\"unknown molecule type {ty}\"),\n    }\n}\n"
 native = "// @generated by /verif/kani/molecule/gen.py from the molecule schema\n#![allow(unused, non_snake_case, clippy::all)]\nuse ckb_types::{packed, prelude::*};\n\nfn inside(part: &[u8], whole: &[u8]) -> bool {\n    let p = part.as_ptr() as usize;\n    let w = whole.as_ptr() as usize;\n    p >= w && p + part.len() <= w + whole.len()\n}\n\n" + walkers + "\n\n/// 1 = accepted by compatible decoding and every accessor ran; 0 = rejected. Panics propagate to the caller.\npub fn walk(ty: &str, bytes: &[u8]) -> u8 {\n    match ty {\n" + "\n".join(arms) + "\n        _ => panic!(\"unknown molecule type {ty}\"),\n    }\n}\n"
-open("/verif/native/src/molwalk.rs", "w").write(native)
+open("/verif/native/src/molwalk.rs", "w").write(native + strict_fn)
 print("native walker for", len(order), "types")
